@@ -862,9 +862,15 @@ class Filter(base.Filter):
 
             for attr in self.svg_attr_val_allows_ref:
                 if attr in attrs:
-                    attrs[attr] = re.sub(r'url\s*\(\s*[^#\s)][^)]*\)',
+                    value = unescape(attrs[attr])
+                    if "\\" in value:
+                        # a CSS escape can spell "url(" (\75rl(...)
+                        del attrs[attr]
+                        continue
+                    # the closing parenthesis is optional at the end of the value
+                    attrs[attr] = re.sub(r'url\s*\(\s*[^#\s)][^)]*\)?',
                                          ' ',
-                                         unescape(attrs[attr]),
+                                         value,
                                          flags=re.I)
             if (token["name"] in self.svg_allow_local_href and
                 (namespaces['xlink'], 'href') in attrs and re.search(r'^\s*[^#\s].*',
